@@ -172,6 +172,12 @@ pub struct Ctx {
     pub threads: usize,
     /// strict mode (replay): known findings are reported as failures too
     pub strict: bool,
+    /// development aid (VERIF_COLLECT=1): keep going after a violation, reporting each new
+    /// signature once
+    pub collect: bool,
+    /// development aid (VERIF_SLOW=<ms>): print cases slower than this
+    pub slow_ms: Option<u128>,
+    pub seen: Mutex<HashSet<String>>,
 }
 
 impl Ctx {
@@ -200,6 +206,9 @@ impl Ctx {
             exhaustive: AtomicBool::new(false),
             threads,
             strict: false,
+            collect: std::env::var("VERIF_COLLECT").is_ok(),
+            slow_ms: std::env::var("VERIF_SLOW").ok().and_then(|s| s.parse().ok()),
+            seen: Mutex::new(HashSet::new()),
         }
     }
 
@@ -305,7 +314,9 @@ impl Ctx {
         let mut st = self.stats.lock().unwrap();
         st.violations
             .push((failure.signature.clone(), failure.detail.clone(), path));
-        self.stop.store(true, Ordering::SeqCst);
+        if !self.collect {
+            self.stop.store(true, Ordering::SeqCst);
+        }
     }
 
     /// Generic proptest-driven campaign, sharded over threads.
@@ -392,13 +403,23 @@ impl Ctx {
                 Err(_) => continue,
             };
             let value = tree.current();
+            let t0 = Instant::now();
             let outcome = check(&value);
+            if let Some(ms) = self.slow_ms {
+                let el = t0.elapsed().as_millis();
+                if el > ms {
+                    eprintln!("SLOW {el} ms: {}", encode(&value));
+                }
+            }
             let is_new = local.record(self, name, &outcome, &|| encode(&value));
             if !is_new {
                 continue;
             }
             // Unlisted failure: shrink with "same signature" predicate.
             let sig = outcome.failure.as_ref().unwrap().signature.clone();
+            if self.collect && !self.seen.lock().unwrap().insert(sig.clone()) {
+                continue;
+            }
             let mut best = (value.clone(), outcome.failure.clone().unwrap());
             let mut budget = 3000u32;
             if tree.simplify() {
@@ -426,7 +447,9 @@ impl Ctx {
             }
             // Another worker may have reported first; report anyway (distinct file), then stop.
             self.violation(name, &best.1, encode(&best.0));
-            break;
+            if !self.collect {
+                break;
+            }
         }
         self.merge(local);
     }
